@@ -673,6 +673,7 @@ func (x *vc) evalCall(env *cenv, e *cexpr) Val {
 		if t == nil {
 			x.cfail("unknown type %s", e.args[1].name)
 		}
+		x.kindFact(t) // what reflect says about values of that dynamic type
 		return Val{T: eq(app("itag", v.T), smtInt(int64(x.srt.typeID(t)))), Typ: boolT}
 	case "dyn": // dyn(x, "*Error"): payload of interface x viewed as type
 		v := x.eval(env, e.args[0])
@@ -918,7 +919,8 @@ func (x *vc) evalCall(env *cenv, e *cexpr) Val {
 		sub := *env
 		sub.depth = env.depth + 1
 		sub.vars = map[string]Val{}
-		sub.bound = env.bound
+		// the body sees only the predicate's parameters: bound variables of the calling context must not capture them
+		sub.bound = nil
 		if sp, ok := x.p.spkgs[pd.pkg]; ok {
 			sub.pkg = sp.Pkg
 		}
